@@ -455,6 +455,8 @@ Fixpoint paper_step_l (l : nat) (date : option nat) (p : tree N A) {struct l} : 
   | S l' =>
     let ps := paper_step_l l' in
     p <- root_update ps date p ;;
+    (* like Backtest.run: a bankrupt strategy no longer runs its algos *)
+    if (match fst p with NStrat g _ _ _ => g_bankrupt g | NSec _ => false end) then refresh ps p else
     p <- run ps p ;;
     p <- root_update ps date p ;;
     refresh ps p
